@@ -1,0 +1,14 @@
+//go:build verif
+
+// Contracts for package phc, read by the verification-condition generator in
+// /verif (govc).  Comment-only.
+
+package phc
+
+// A stored password-hash string is accepted or rejected with an error, never with a panic.
+//@ props C16
+//@ func ParsePHC
+//@   nopanic
+//@   ensures result1 == nil ==> result0 != nil && len(result0.hash) > 0 && result0.memory > 0 && result0.time > 0 && result0.threads > 0
+//@   ensures result1 != nil ==> result0 == nil
+//@   loop 1 invariant true
